@@ -264,6 +264,15 @@ func runProp(prop, tier, repo, verif string, workers int, seed int64, solverBin,
 	}
 	tLoad := time.Since(t0).Seconds()
 	cfgs := pd.Instances(tier, L)
+	if n, err := strconv.Atoi(os.Getenv("SYMGO_SAMPLE")); err == nil && n > 1 {
+		var keep []*HarnessCfg // exploration aid: every n-th instance only
+		for i, c := range cfgs {
+			if i%n == 0 {
+				keep = append(keep, c)
+			}
+		}
+		cfgs = keep
+	}
 	if x, err := strconv.ParseFloat(os.Getenv("SYMGO_WALLX"), 64); err == nil && x > 0 {
 		for _, c := range cfgs { // exploration aid: scale the per-instance time caps
 			c.MaxWallS *= x
@@ -791,7 +800,7 @@ var boundsText = map[string][2]string{
 	"C06": {"HEVC NAL size lists {2,108,130;17+3} (+ one decoded separately), AVC NAL size lists {1,15,16,107,108,109,123;124,200+5,130;16+3} x IV 8/16, AAC sizes {0,1,15,16,17,40,32;33} x cenc/cbcs, one instance with uuid+unknown boxes, 6 instances with init and media decoded separately (<= 2 samples); key/IV/metadata symbolic", "adds NAL sizes 112,113,128,255+20;300,16;16;16 and audio 2,31,48,5;5;5"},
 	"C07": {"the C06 instances (assertions on the encrypted form) and GetAVCProtectRanges for every NAL size 1..40 and around 112 / 65535", "as quick with the thorough C06 sizes"},
 	"C08": {"6 chunk layouts (<= 3 chunks x 3 samples, 1-2 tracks) x half of {large mdat, mdat first, co64} x work buffers 0,1,2,(5); symbolic (start,size) and sample intervals", "10 layouts x all 8 variants x work buffers 0,1,2,5"},
-	"C09": {"5 stsc layouts x 1-2 stts entries x {built, decoded} x {stco,co64}x{explicit,uniform} (2 of 4) x option sets {0,5,11}; <= 8 samples; symbolic deltas, sizes, offsets, sample numbers, intervals and times", "11 layouts x 1-3 stts entries x all variants x 12 option sets"},
+	"C09": {"5 stsc layouts x 1-2 stts entries x {built, decoded} x {stco,co64}x{explicit,uniform} (2 of 4) x option sets {0,5,11}; <= 8 samples; symbolic deltas, sizes, offsets, sample numbers, intervals and times", "11 layouts x 1-3 stts entries x all four {stco,co64}x{explicit,uniform} variants (two of them with 3 stts entries) x option sets {0,1,5,7,11,13}"},
 	"C10": {"layouts v, vc, va, a, vav (1-3 tracks): a symbolic crop duration 1..400 ms for all four {co64, lazy} variants, plus 6-9 concrete durations around the sample boundaries (one variant each)", "concrete durations with all four variants"},
 	"C11": {"segmenter: layouts v,vc,va,vr,var x segment durations {1,40,80,100,200} ms x {single,multi,lazy}; resegmenter 4 shapes; combine-segs 4 shapes; Fragmentify 1..4 samples", "all layouts x durations; more resegmenter shapes; Fragmentify 1..6"},
 	"C12": {"11 segment layouts over S,f,N,D,E,M x decode flags x both decoders, plus tfra-delimited layouts (TfTM, TTfM, TfTfM) under every flag combination and top-level sidx layouts; UpdateSidx for all (add, nonZeroEPT)", "17 layouts"},
